@@ -37,7 +37,9 @@ def main():
     print(len(cands), "matching obligations; taking", which)
     ob = cands[which]
     base = list(ob.hyps) + list(e.axioms)
-    neg = z3.Not(e._skolemize(ob.goal))
+    e.cur_contract = c
+    goal = e.open_goal(ob.goal, base) if getattr(c, "open_goal", False) else ob.goal
+    neg = z3.Not(e._skolemize(goal))
     allf = e.saturate(base + [neg], base, getattr(c, "depth", 0) or 2, 2, focus=[neg])
     A = Abstractor(e.V)
     ab = A.run(allf)
